@@ -109,7 +109,8 @@ static void run_sim(uint64_t seed, uint32_t len, struct res *out)
     /* half of the trials build (part of) their model before they initialise their event queue: whatever the thread did before must not show */
     const bool early = ((seed >> 9) & 1) != 0;
     /* parameters that are close neighbours of what the neighbouring trials use (caches keyed on a parameter must compare exactly) */
-    { static const double nb[4] = { 25.0, 1.0 / (0.2 * 0.2), 25.000000000000004, 25.0 * (1.0 + 1e-12) }; w.near_shape = nb[(seed >> 10) & 3]; w.near_p = ((seed >> 12) & 1) ? 0.3 : 0.30000000000000004; }
+    /* (neighbours at 25, and in [1, 2) where one ulp is no more than the machine epsilon: 3 * 0.4 is not 1.2) */
+    { static const double nb[8] = { 25.0, 1.0 / (0.2 * 0.2), 25.000000000000004, 25.0 * (1.0 + 1e-12), 1.2, 3.0 * 0.4, 1.5, 1.5000000000000002 }; w.near_shape = nb[(seed >> 10) & 7]; w.near_p = ((seed >> 12) & 1) ? 0.3 : 0.30000000000000004; }
     /* drawn by the trial function itself (not in a process), first thing after seeding: the neighbouring shape, and results in the subnormal range */
     hmixd(cmb_random_std_gamma(w.near_shape)); hmix(cmb_random_geometric(w.near_p));
     for (int k = 0; k < 6; k++) hmixd(cmb_random_std_gamma(0.002));
@@ -424,6 +425,29 @@ void vr_case(uint64_t seed, uint64_t idx, int profile)
         if (e_bad) vr_violation("C01/concurrent-trials", "%s", e_msg);
         VR_ADD("event_queue_trials", ntrials); VR_ADD("pattern_sweeps_in_concurrent_trials", e_sweeps); VR_ADD("events_run_in_concurrent_trials", e_events_run); VR_CNT("event_queue_experiments");
         vr_mark_nontrivial(); free(arr); return;
+    }
+    if (profile == 6) {
+        /* C12, a queue in use for a long time: one low-priority object stays queued while 2^31 (+-) others pass through; an object of the same
+         * priority put after that must still come after it (handles are compared as the 64-bit numbers they are). Two to three minutes. */
+        free(arr);
+        static const uint64_t passes[] = { (1ull << 31) + 7, (1ull << 31) - 3, (1ull << 32) + 5 };
+        uint64_t np = passes[idx % 3]; if (idx >= 3) np = (1ull << 16) + idx;
+        struct cmb_priorityqueue *pq = cmb_priorityqueue_create(); cmb_priorityqueue_initialize(pq, "long-lived", CMB_UNLIMITED);
+        static int early, late, other; uint64_t he = 0, hl = 0, h = 0; void *o = NULL;
+        if (cmb_priorityqueue_put(pq, &early, 0, &he) != CMB_PROCESS_SUCCESS) { vr_inconclusive("put failed"); return; }
+        for (uint64_t k = 0; k < np && vr_nviol == 0; k++) {
+            if (cmb_priorityqueue_put(pq, &other, 5, &h) != CMB_PROCESS_SUCCESS || cmb_priorityqueue_get(pq, &o) != CMB_PROCESS_SUCCESS || o != (void *)&other)
+                vr_violation("C12/pq-order", "pass %" PRIu64 ": an object of priority 5 put into a queue holding one of priority 0 was not the one delivered", k);
+            if ((k & 0xfffff) == 0 && cmb_priorityqueue_length(pq) != 1) vr_violation("C12/pq-length", "pass %" PRIu64 ": length %" PRIu64, k, cmb_priorityqueue_length(pq));
+        }
+        if (vr_nviol == 0) {
+            if (cmb_priorityqueue_put(pq, &late, 0, &hl) != CMB_PROCESS_SUCCESS) { vr_inconclusive("put failed"); return; }
+            uint64_t pe = cmb_priorityqueue_position(pq, he), pl = cmb_priorityqueue_position(pq, hl);
+            if (pe != 1 || pl != 2) vr_violation("C12/pq-position", "after %" PRIu64 " objects have passed through: the object queued before them (handle %" PRIu64 ") is at position %" PRIu64 ", the one of the same priority put after them (handle %" PRIu64 ") at %" PRIu64, np, he, pe, hl, pl);
+            else if (cmb_priorityqueue_get(pq, &o) != CMB_PROCESS_SUCCESS || o != (void *)&early) vr_violation("C12/pq-order", "after %" PRIu64 " objects have passed through, equal priorities are no longer delivered in put order", np);
+        }
+        VR_ADD("objects_passed_through_a_long_lived_queue", np); VR_CNT("long_lived_queues");
+        vr_mark_nontrivial(); if (vr_nviol == 0) cmb_priorityqueue_destroy(pq); return;
     }
     if (profile == 7) {
         q_mode = 5; if (ntrials > 200) ntrials = 200;
